@@ -571,6 +571,9 @@ class Tr:
         self.ctypes = dict(t.get('ctypes', {}))      # C++ type name -> custom value type
         self.intdiv = bool(t.get('intdiv'))
         self.symtypes = set(t.get('symbolic_types', []))   # declared types whose locals always stay symbolic
+        # calls that READ AND WRITE state variables (explicit state passing):  key -> dict(term='f {$a} {$b} {0}', updates=['$a','$b'],
+        # ret=type|None, args=[types]).  key = full call text for value calls ('GetAcknowledgement()'), callee for statements.
+        self.calls_st = dict(t.get('calls_st', {}))
         self.emits = dict(t.get('emits', {}))        # call key (regex) -> (event list state variable, event term)
         self.fuel = t.get('fuel')                    # gallina nat term bounding every while loop
         self.opaque_ok = t.get('opaque', True)
@@ -767,18 +770,38 @@ class Tr:
             if fk in self.emits: return self.emits[fk][0]
         return None
 
+    def targets_of(self, e, env):
+        e = unparen(e)
+        if e[0] == 'call' and key(e[1], None) in self.calls_st:
+            return list(self.calls_st[key(e[1], None)]['updates'])
+        t = self.target_of(e, env)
+        return [t] if t else []
+
     def assigned(self, stmts, env):
         """value variables of env assigned somewhere in stmts (symbolic locals do not count)"""
         acc, declared = set(), set()
+        def calls_in(x):
+            if not isinstance(x, tuple): return
+            if x[0] == 'call':
+                try:
+                    sp = self.calls_st.get(key(x, env))
+                except Unsupported:
+                    sp = None
+                if sp and sp.get('ret'): acc.update(sp['updates'])
+            for y in x:
+                if isinstance(y, tuple): calls_in(y)
+                elif isinstance(y, list):
+                    for z in y: calls_in(z)
         def walk(ss):
             for s in ss:
                 k = s[0]
+                if self.calls_st and k in self.HEAD and s[self.HEAD[k]] is not None and not self.is_skip(s, env):
+                    calls_in(s[self.HEAD[k]])
                 if k == 'decl': declared.add(s[2])
                 elif k == 'sbind': declared.update(s[1])
                 elif k == 'expr':
                     if self.is_skip(s, env): continue
-                    t = self.target_of(s[1], env)
-                    if t: acc.add(t)
+                    acc.update(self.targets_of(s[1], env))
                 elif k == 'if': walk(s[2]); walk(s[3])
                 elif k == 'block': walk(s[1])
                 elif k == 'switch':
@@ -845,11 +868,69 @@ class Tr:
         kname = self.fresh('xl_k')
         return 'let %s := %s in\n%s' % (kname, r, body.replace(ph, kname))
 
+    # ---- calls with an effect on the state variables inside an expression: hoisted in front of the statement
+    HEAD = {'expr': 1, 'decl': 3, 'if': 1, 'return': 1, 'switch': 1, 'while': 1}
+
+    def st_term(self, spec, env, args=()):
+        t = re.sub(r'\{(\$\w+)\}', lambda m: env.vals[m.group(1)][0], spec['term'])
+        return t.format(*[P(a) for a in args]) if args else t
+
+    def st_bind(self, spec, env, value_name=None):
+        """fresh names for the state variables the call updates -> (let-pattern, new env)"""
+        e2, gs = env.copy(), []
+        if value_name: gs.append(value_name)
+        for n in spec['updates']:
+            g = self.fresh(n.lstrip('$')); gs.append(g)
+            e2.vals[n] = (g, env.vals[n][1], env.vals[n][2])
+        return (gs[0] if len(gs) == 1 else "'(" + ', '.join(gs) + ')'), e2
+
+    def hoist(self, s, env):
+        """value calls listed in calls_st that occur in the head expression of s: executed ONCE, in front of the statement, in
+        evaluation order; every occurrence reads the value of that one execution.  Exact when (1) the first occurrence is
+        evaluated unconditionally (checked here: not under the right operand of && || or a ?: branch) and (2) a repeated call
+        returns the same value and changes nothing (idempotence: an obligation of the binding, proved in coq/Src)."""
+        idx = self.HEAD.get(s[0])
+        if idx is None or s[idx] is None or not any(sp.get('ret') for sp in self.calls_st.values()): return '', env, s
+        order, seen = [], {}
+        def walk(x, cond):
+            if not isinstance(x, tuple): return x
+            if x[0] == 'call':
+                kk = key(x, env)
+                sp = self.calls_st.get(kk)
+                if sp and sp.get('ret'):
+                    if kk not in seen:
+                        if cond: raise Unsupported('call %s changes the state and is evaluated only conditionally' % kk)
+                        seen[kk] = '$xl_call%d' % (len(seen) + 1 + self.nid * 100); order.append(kk)
+                    return ('id', seen[kk])
+                return ('call', walk(x[1], cond), [walk(a, cond) for a in x[2]])
+            if x[0] == 'bin' and x[1] in ('&&', '||'):
+                return ('bin', x[1], walk(x[2], cond), walk(x[3], True))
+            if x[0] == 'cond':
+                return ('cond', walk(x[1], cond), walk(x[2], True), walk(x[3], True))
+            return tuple(walk(y, cond) if isinstance(y, tuple) else ([walk(z, cond) for z in y] if isinstance(y, list) else y) for y in x)
+        e2 = walk(s[idx], False)
+        if not order: return '', env, s
+        if s[0] == 'while': raise Unsupported('state-changing call in a loop condition')
+        pre = ''
+        for kk in order:
+            sp = self.calls_st[kk]
+            v = self.fresh('xl_v')
+            term = self.st_term(sp, env)
+            pat, env = self.st_bind(sp, env, v)
+            env.vals[seen[kk]] = (v, sp['ret'], self.declid())
+            pre += 'let %s := %s in\n' % (pat, term)
+            self.notes.append('%s is executed once per statement (state passed explicitly); repeated reads in the statement see that value' % kk)
+        return pre, env, s[:idx] + (e2,) + s[idx + 1:]
+
     # ---- statements
     def ts(self, stmts, env, ctx):
         if not stmts:
             return ctx.fall(env)
         s, rest = stmts[0], stmts[1:]
+        if self.calls_st and not self.is_skip(s, env):
+            pre, env, s = self.hoist(s, env)
+            if pre:
+                return pre + self.ts([s] + rest, env, ctx)
         k = s[0]
         R = lambda e2: self.check(self.ts(rest, e2, ctx))
         if k == 'empty':
@@ -960,6 +1041,14 @@ class Tr:
             if fk in self.setters and len(e[2]) == 1:
                 n = self.setters[fk]
                 return self.let(n, env.vals[n][1], self.coerce(self.tx(e[2][0], env), env.vals[n][1]), env, R)
+            if fk in self.calls_st and not self.calls_st[fk].get('ret'):
+                sp = self.calls_st[fk]
+                ats = sp.get('args', [])
+                if len(ats) != len(e[2]): raise Unsupported('arity of ' + fk)
+                args = [self.coerce(self.tx(a, env), at) for a, at in zip(e[2], ats) if at is not None]
+                term = self.st_term(sp, env, args)
+                pat, e2 = self.st_bind(sp, env)
+                return 'let %s := %s in\n%s' % (pat, term, R(e2))
             if fk in self.emits:
                 n, tmpl, ats = self.emits[fk]
                 args = [self.coerce(self.tx(a, env), at) if at else '' for a, at in zip(e[2], ats)]
@@ -1165,7 +1254,7 @@ def translate(target, src):
         # region_exit: the region may be left early by `return;` / `continue;` / `break;` (of the enclosing function / loop);
         # its result is then (left early?, outputs, state)
         def region_result(left, e2):
-            vals = ['true' if left else 'false']
+            vals = [left if isinstance(left, str) else ('true' if left else 'false')]
             for o in outputs:
                 if o not in e2.vals or e2.vals[o][0] is None: raise Unsupported('region output %s is not set when the region is left' % o)
                 vals.append(e2.vals[o][0])
@@ -1173,6 +1262,12 @@ def translate(target, src):
             return vals[0] if len(vals) == 1 else '(' + ', '.join(P(v) for v in vals) + ')'
 
         def ret_exit(e, e2):
+            # exit_code_of = F: every `return F(code, ...)` leaves the region with the (integer) code, falling through yields 0
+            ec = target.get('exit_code_of')
+            if ec:
+                e = unparen(e) if e is not None else None
+                if e is None or e[0] != 'call' or key(e[1], None) != ec or not e[2]: raise Unsupported('return inside the region is not %s(code, ...)' % ec)
+                return region_result(tr.coerce(tr.tx(e[2][0], e2), 'Z'), e2)
             if e is not None: raise Unsupported('return with a value inside a region')
             return region_result(True, e2)
 
@@ -1180,7 +1275,7 @@ def translate(target, src):
             return ('Some %s' % P(tr.abort_val)) if tr.fuel else tr.abort_val
 
         if target.get('region_exit'):
-            ctx0 = Ctx(ret_exit, lambda e2: region_result(False, e2), brk=lambda e2: region_result(True, e2),
+            ctx0 = Ctx(ret_exit, lambda e2: region_result('0' if target.get('exit_code_of') else False, e2), brk=lambda e2: region_result(True, e2),
                        cont=lambda e2: region_result(True, e2), abort=abort, rtype=rcoq, top=True)
         else:
             ctx0 = Ctx(ret_region if target.get('region') else ret, fall, abort=abort, rtype=rcoq, top=True)
